@@ -1,6 +1,7 @@
 import LyModel.Merge.LemmasKeep2
 import LyModel.Merge.LemmasDestruct
 import LyModel.Merge.LemmasDupSibs
+import LyModel.Merge.LemmasCanon
 /-!
 # C14 — merging and duplicating trees preserve content (property theorems)
 
@@ -184,6 +185,34 @@ example :
       (descend exS [cT, ll2] exSrc).isNone = true ∧
       (descend exS [cT, ll2] (merge exS {} exT exSrc)).map (·.val) = some [50] := by
   decide
+
+/-! ## the result is in canonical order -/
+
+/-- **merge_result_canonical**: for *all* well-formed targets and sources (duplicate instances of key-less lists / state
+leaf-lists included) the merged tree has, at every level, the shape of a data tree (node kinds, keys first), libyang's
+sibling order — schema order; instances of a system-ordered keyed list / leaf-list in non-decreasing order of the type's
+`sort` callback, which needs the comparison to be transitive (`LemmasCmp`) — and no second instance of a leaf, container,
+keyed-list entry or configuration leaf-list value. -/
+theorem merge_result_canonical (S : Schema) (o : MergeOpts) (t s : List DNode) (ht : wfForest S t = true)
+    (hs : wfForest S s = true) :
+    shapeAll S none (merge S o t s) = true ∧ pairwiseB (okPair S) (merge S o t s) = true ∧
+      ordAll S (merge S o t s) = true := by
+  simp only [wfForest, wfSibs, Bool.and_eq_true] at ht hs
+  obtain ⟨⟨⟨⟨t1, _⟩, t3⟩, t4⟩, _⟩ := ht
+  obtain ⟨⟨⟨⟨s1, _⟩, _⟩, s4⟩, s5⟩ := hs
+  exact can_mergeKids S o s none [] false { cur := t }
+    (fun c hc => ⟨(shapeAll_iff S none s).1 s1 c hc, (ordAll_iff S s).1 s4 c hc, (flagsOkL_iff s).1 s5 c hc⟩)
+    ⟨t1, t3, t4⟩
+
+/-- … which is the shared tree base's invariant: rebuilding every sibling list of the result by inserting its nodes one
+by one (`Tree.canon`, what the harness does through `lyd_new_*`) gives the result back. -/
+theorem merge_result_canon_fixpoint (S : Schema) (o : MergeOpts) (t s : List DNode) (ht : wfForest S t = true)
+    (hs : wfForest S s = true) (fuel : Nat) : canon S fuel (merge S o t s) = merge S o t s := by
+  obtain ⟨_, h2, h3⟩ := merge_result_canonical S o t s ht hs
+  exact canon_id S fuel _ h2 h3
+
+example : wfForest exS exT = true ∧ wfForest exS exSrc = true ∧ beqL (merge exS {} exT exSrc) exT = false ∧
+    wfForest exS (merge exS {} exT exSrc) = true := by decide
 
 /-! ## dup -/
 
